@@ -75,6 +75,18 @@ def slots(A):
     out.append(("ExprList.exprs", lambda ch: A.ExprList([x, ch, y]), None, ASSIGN))
     out.append(("FuncCall.args", lambda ch: A.FuncCall(x, A.ExprList([ch, y])), None, ASSIGN))
     out.append(("InitList.exprs", lambda ch: A.InitList([x, ch]), None, ASSIGN))
+    # constant-expression positions (parsed at conditional level) and the array bound (assignment level)
+    idt = lambda: A.IdentifierType(["int"])  # noqa: E731
+    out.append(("Enumerator.value", lambda ch: A.Enumerator("E", ch), "value", COND))
+    out.append(("Decl.bitsize", lambda ch: A.Decl("b", [], [], [], [], A.TypeDecl("b", [], None, idt()), None, ch), "bitsize", COND))
+    out.append(("Decl.init", lambda ch: A.Decl("v", [], [], [], [], A.TypeDecl("v", [], None, idt()), ch, None), "init", ASSIGN))
+    out.append(("ArrayDecl.dim", lambda ch: A.Decl("a", [], [], [], [], A.ArrayDecl(A.TypeDecl("a", [], None, idt()), ch, []), None, None), None, ASSIGN))
+    out.append(("Alignas.alignment", lambda ch: A.Alignas(ch), "alignment", COND))
+    out.append(("Case.expr", lambda ch: A.Case(ch, [A.EmptyStatement()]), "expr", COND))
+    out.append(("NamedInitializer.designator", lambda ch: A.NamedInitializer([ch], A.Constant("int", "1")), None, COND))
+    out.append(("NamedInitializer.expr", lambda ch: A.NamedInitializer([A.ID("m")], ch), "expr", ASSIGN))
+    out.append(("StaticAssert.cond", lambda ch: A.StaticAssert(ch, None), "cond", COND))
+    out.append(("sizeof.expr", lambda ch: A.UnaryOp("sizeof", ch), "expr", UNARY))
     return out
 
 
@@ -106,6 +118,8 @@ def parenthesisation_contract() -> core.Result:
                     continue
                 n_checked += 1
                 if MARK not in text:
+                    if sname == "NamedInitializer.designator" and cname == "ID":
+                        continue  # an identifier designator is printed as `.name` (the AST cannot tell `[N]` from `.N`)
                     bad.append(f"{cname} flag={flag}: the child is not emitted at all: {text!r}")
                     continue
                 i = text.index(MARK)
